@@ -312,6 +312,105 @@ def _budget_param(lib, comp):
     return bp
 
 
+_DEC_HELPERS = {}
+
+
+def _dec_helper(lib, hb):
+    """A checked decrement of the budget kept in a helper: `fn enter(budget) -> Result<Budget, E>` (or Option) whose
+    only arithmetic is `budget.checked_sub(c)` (on the parameter, or on the one field of a newtype parameter), which
+    answers Err / None when that fails — and, in some versions, when nothing would be left — and otherwise hands back
+    what is left (wrapped in the newtype again). Returns (c, thr): the helper refuses budgets <= thr and returns
+    budget - c; None for anything else."""
+    if hb is None:
+        return None
+    key = (id(lib), hb.id)
+    if key in _DEC_HELPERS:
+        return _DEC_HELPERS[key]
+    res = None
+    try:
+        rt = str(hb.raw.get("ret_ty", ""))
+        if hb.nargs == 1 and hb.raw["def_kind"] in ("Fn", "AssocFn") and (rt.startswith("std::result::Result<") or rt.startswith("std::option::Option<")) and not any(hb.on_cycle(bb) for bb in hb.reach()):
+            subs = [(bb, t) for bb, t in hb.calls() if (fn_of(t) or {}).get("name") == "checked_sub" and len(t["args"]) == 2]
+            others = [(bb, t) for bb, t in hb.calls() if (fn_of(t) or {}).get("name") != "checked_sub" and (fn_of(t) or {}).get("def") not in ("std::ops::Try::branch", "std::ops::FromResidual::from_residual", "std::option::Option::<T>::ok_or", "std::convert::From::from", "std::convert::Into::into")]
+            if len(subs) == 1 and not others:
+                sb, st = subs[0]
+                at = trace(hb, st["args"][0])
+                c = const_value(st["args"][1])
+                fields = [x for x in at.steps if x[0] == "field"]
+                on_param = bool(at.origin and at.origin[0] == "arg" and at.origin[1] == 1 and len(fields) <= 1 and all(x[0] in ("use", "field", "deref") for x in at.steps))
+                if on_param and isinstance(c, int) and not isinstance(c, bool) and c >= 1:
+                    dl = st["dest"]["l"]
+                    # every Ok / Some the helper returns carries the subtraction's payload (possibly re-wrapped)
+                    good = True
+                    n_ok = 0
+                    for bb_, _, k_, p_ in hb.whole_defs(0):
+                        if k_ == "assign" and p_["rv"]["k"] == "aggregate" and p_["rv"].get("variant") in ("Ok", "Some") and p_["rv"]["ops"]:
+                            n_ok += 1
+                            pt = trace(hb, p_["rv"]["ops"][0])
+                            if pt.origin and pt.origin[0] == "agg" and len(pt.origin[1]["rv"]["ops"]) == 1:
+                                pt = trace(hb, pt.origin[1]["rv"]["ops"][0])
+                            if not (pt.origin and pt.origin[0] == "call" and pt.origin[2] is st and any(x[0] == "downcast" and x[1] == "Some" for x in pt.steps)):
+                                good = False
+                        elif k_ == "call" and (fn_of(p_) or {}).get("def") == "std::option::Option::<T>::ok_or":
+                            n_ok += 1
+                            pt = trace(hb, p_["args"][0])
+                            if not (pt.origin and pt.origin[0] == "call" and pt.origin[2] is st and all(x[0] == "use" for x in pt.steps)):
+                                good = False
+                    if good and n_ok >= 1:
+                        # is "nothing left" refused as well? a switch on the payload with a 0 target that ends in Err / None
+                        thr = c - 1
+                        for bi in sorted(hb.reach()):
+                            sw = hb.blocks[bi]["term"]
+                            if sw["k"] != "switch" or not is_place(sw["discr"]):
+                                continue
+                            dp = sw["discr"]["p"]
+                            if dp["l"] == dl and any(e["k"] == "downcast" and e.get("variant") == "Some" for e in dp["pr"]):
+                                zero = [x for v, x in sw["targets"] if v == 0]
+                                if zero:
+                                    r = hb.reachable_from(zero[0])
+                                    if any(s2["k"] == "assign" and s2["p"]["l"] == 0 and s2["rv"]["k"] == "aggregate" and s2["rv"].get("variant") in ("Err", "None") for x in r for s2 in hb.blocks[x]["stmts"]) and not any(s2["k"] == "assign" and s2["p"]["l"] == 0 and s2["rv"]["k"] == "aggregate" and s2["rv"].get("variant") in ("Ok", "Some") for x in r for s2 in hb.blocks[x]["stmts"]):
+                                        thr = c
+                        res = (c, thr)
+            # `NonZeroUsize::new(budget.get() - 1).ok_or(Err)`: the type keeps the budget >= 1, the subtraction cannot
+            # underflow, and `new` refuses a result of 0: budgets <= 1 are refused, 1 is taken off
+            if res is None and "NonZero" in hb.local_ty(1):
+                subs2 = [(bi, s_) for bi in sorted(hb.reach()) for s_ in hb.blocks[bi]["stmts"] if s_["k"] == "assign" and s_["rv"]["k"] == "binop" and s_["rv"]["op"] in ("Sub", "SubWithOverflow", "SubUnchecked")]
+                calls_ = [(fn_of(t) or {}).get("def", "") for _, t in hb.calls()]
+                if len(subs2) == 1 and const_value(subs2[0][1]["rv"]["b"]) == 1 and sorted(set(calls_)) == sorted({"std::num::NonZero::<T>::get", "std::num::NonZero::<T>::new", "std::option::Option::<T>::ok_or"}):
+                    gt = trace(hb, subs2[0][1]["rv"]["a"])
+                    got = bool(gt.origin and gt.origin[0] == "call" and (fn_of(gt.origin[2]) or {}).get("def") == "std::num::NonZero::<T>::get" and trace(hb, gt.origin[2]["args"][0]).origin == ("arg", 1))
+                    rdefs = hb.whole_defs(0)
+                    fin = len(rdefs) == 1 and rdefs[0][2] == "call" and (fn_of(rdefs[0][3]) or {}).get("def") == "std::option::Option::<T>::ok_or"
+                    if got and fin:
+                        nt = trace(hb, rdefs[0][3]["args"][0])
+                        if nt.origin and nt.origin[0] == "call" and (fn_of(nt.origin[2]) or {}).get("def") == "std::num::NonZero::<T>::new":
+                            st_ = trace(hb, nt.origin[2]["args"][0])
+                            if st_.origin and st_.origin[0] == "rvalue" and st_.origin[1] is subs2[0][1]:
+                                res = (1, 1)
+    except Exception:
+        res = None
+    _DEC_HELPERS[key] = res
+    return res
+
+
+def _helper_call_on_param(lib, body, op, param):
+    """`op` is what is left after `helper(own budget)`: the Ok / Some payload (through `?`, `match`, `let .. else`) of a
+    call of a checked-decrement helper whose argument is the body's parameter `param`. Returns (c, thr, bb, term)."""
+    tr = trace(body, op, passthrough_extra=("std::ops::Try::branch",))
+    if not (tr.origin and tr.origin[0] == "call" and any(x[0] == "downcast" and x[1] in ("Continue", "Ok", "Some") for x in tr.steps)):
+        return None
+    t = tr.origin[2]
+    f = fn_of(t) or {}
+    hb = lib.by_id.get(f.get("resolved") or f.get("def")) if f.get("local") else None
+    dh = _dec_helper(lib, hb)
+    if dh is None or not t["args"]:
+        return None
+    at = trace(body, t["args"][0])
+    if at.origin and at.origin[0] == "arg" and at.origin[1] == param and all(x[0] == "use" for x in at.steps):
+        return dh[0], dh[1], tr.origin[1], t
+    return None
+
+
 def _delta_s(sup, node, body, op, param):
     """`_delta` for a call site that may sit in a closure of the function: the operand is followed through the
     closure's captured variables to the function's own parameter."""
@@ -353,6 +452,9 @@ def _delta(body, op, param):
                 return c
         if rv["k"] == "binop" and rv["op"].startswith("Add"):
             return None
+    hc = _helper_call_on_param(body.crate, body, op, param)
+    if hc is not None:
+        return hc[0]
     if tr.origin and tr.origin[0] == "call":
         f = fn_of(tr.origin[2]) or {}
         if f.get("name") in ("saturating_sub", "wrapping_sub") and len(tr.origin[2]["args"]) == 2:
@@ -391,8 +493,42 @@ def _raw_budget_tests(lib, comp):
             r = b.reachable_from(dst)
             rec = [x for x in r if b.blocks[x]["term"]["k"] == "call" and ((fn_of(b.blocks[x]["term"]) or {}).get("def") in comp or (fn_of(b.blocks[x]["term"]) or {}).get("resolved") in comp)]
             errs = any(s2["k"] == "assign" and s2["p"]["l"] == 0 and s2["rv"]["k"] == "aggregate" and s2["rv"].get("variant") == "Err" for x in r for s2 in b.blocks[x]["stmts"])
+            # (the Break arm of `?` returns the error through from_residual)
+            errs = errs or any(b.blocks[x]["term"]["k"] == "call" and (fn_of(b.blocks[x]["term"]) or {}).get("def") == "std::ops::FromResidual::from_residual" and not b.blocks[x]["term"]["dest"]["pr"] and b.blocks[x]["term"]["dest"]["l"] == 0 for x in r)
             return not rec and errs
 
+        # `let inner = enter(budget)?` / `budget.descend()?`: the helper's refusal is a test of the budget, its Ok edge
+        # the live one
+        for hb_, ht_ in b.calls():
+            hf_ = fn_of(ht_) or {}
+            hbody = lib.by_id.get(hf_.get("resolved") or hf_.get("def")) if hf_.get("local") else None
+            dh = _dec_helper(lib, hbody)
+            if dh is None or not ht_["args"]:
+                continue
+            at = trace(b, ht_["args"][0])
+            if not (at.origin and at.origin[0] == "arg" and all(x[0] == "use" for x in at.steps)):
+                continue
+            # the switch that tells Ok from Err: on the helper's result, directly or through `?`
+            res_l = ht_["dest"]["l"]
+            carriers_ = {res_l}
+            for cb2, ct2 in b.calls():
+                if (fn_of(ct2) or {}).get("def") == "std::ops::Try::branch" and ct2["args"] and is_place(ct2["args"][0]) and ct2["args"][0]["p"]["l"] in carriers_:
+                    carriers_.add(ct2["dest"]["l"])
+            for bi in sorted(b.reach()):
+                sw = b.blocks[bi]["term"]
+                if sw["k"] != "switch":
+                    continue
+                for s_ in b.blocks[bi]["stmts"]:
+                    if s_["k"] == "assign" and s_["rv"]["k"] == "discr" and not s_["rv"]["p"]["pr"] and s_["rv"]["p"]["l"] in carriers_ and is_place(sw["discr"]) and sw["discr"]["p"]["l"] == s_["p"]["l"]:
+                        ty_ = b.local_ty(s_["rv"]["p"]["l"])
+                        # Continue / Ok / Some carry on; ControlFlow: Continue = 0, Result: Ok = 0, Option: Some = 1
+                        live_idx = 1 if ty_.startswith("std::option::Option<") else 0
+                        live_t = [x for v, x in sw["targets"] if v == live_idx]
+                        live_t = live_t[0] if live_t else (sw["otherwise"] if live_idx not in [v for v, _ in sw["targets"]] else None)
+                        dead = [x for v, x in sw["targets"] if v != live_idx] + ([sw["otherwise"]] if live_idx in [v for v, _ in sw["targets"]] else [])
+                        dead = [x for x in dead if b.blocks[x]["term"]["k"] != "unreachable"]
+                        if live_t is not None and dead:
+                            out.append({"fid": fid, "bb": bi, "param": at.origin[1], "thr": dh[1], "op": "Le", "c": dh[1], "live": (bi, live_t), "ok": all(exhausted_ok(x) for x in dead)})
         for bi in sorted(b.reach()):
             blk = b.blocks[bi]
             sw = blk["term"]
@@ -600,7 +736,10 @@ def r18_3(ctx):
                         # within it (R18.1 reports the sources); the arithmetic below is done for the default, and the
                         # parser must be given the very same value, whatever it is
                         alts = cfgbound.alternatives(lib, b, t["args"][bp[r] - 1])
-                        if cfgbound.is_limit(alts, REQUIRED_DEPTH):
+                        if cfgbound.is_limit(alts, REQUIRED_DEPTH) and not any(a_[2] for a_ in alts):
+                            # the documented constant, handed through a wrapper's parameter or a newtype: nothing adjustable
+                            v = REQUIRED_DEPTH
+                        elif cfgbound.is_limit(alts, REQUIRED_DEPTH):
                             v = REQUIRED_DEPTH
                             bt = trace(b, t["args"][bp[r] - 1])
                             same = True
